@@ -25,7 +25,7 @@ ExcCode == 1000001
 BigCode == 1000002
 
 (* representability of a TLC-integer value v in any of the eight types *)
-Rep(T, v) == IF Small(T) THEN Representable(T, v) ELSE (Signed(T) \/ v >= 0)
+Rep(ty, v) == IF Small(ty) THEN Representable(ty, v) ELSE (Signed(ty) \/ v >= 0)
 
 X(r, i) == IF Len(r.xs) > 0 THEN r.xs[i] ELSE r.x0 + (i - 1)
 Enc(o) == IF o = None THEN NoneCode ELSE o[1]
@@ -38,18 +38,7 @@ IntervalAccepted(a1, b1, a2, b2) ==
   ELSE {IntervalDistance(a1, b1, a2, b2)}
 
 \* ------------------------------------------------------------------ narrow rows
-(* does the specification demand a particular result? *)
-NarrowDemanded(r, x) ==
-  CASE r.f = "ceil_div_signed" -> x = 0 \/ Rep(r.S, CeilQ(r.a, x))
-    [] r.f = "div" -> x = 0 \/ Rep(r.D, TruncQ(r.a, x))
-    [] r.f = "diff" -> Rep(r.S, Diff(r.a, x))
-    [] r.f = "next_power_of_2" -> Rep(r.S, NextPow2(x))
-    [] r.f = "log2" -> x # 0
-    [] r.f \in {"power_of_2", "shifted_mask"} -> x <= MaxExp /\ Rep(r.S, Pow2(x))
-    [] r.f = "interval_distance" -> r.a <= r.b /\ r.c <= x
-    [] OTHER -> TRUE
-
-(* the spec says "nothing" *)
+(* the specification says "nothing" (used to classify a rejected result) *)
 NarrowExpectNone(r, x) ==
   CASE r.f = "truncation_check" -> ~Rep(r.D, x)
     [] r.f = "from_int" -> x >= r.n
@@ -58,25 +47,49 @@ NarrowExpectNone(r, x) ==
     [] OTHER -> FALSE
 
 Bounded(v) == -50000000 < v /\ v < 50000000 /\ v # NoneCode /\ v # ExcCode /\ v # BigCode
-NarrowOk(r, x, v) ==
-  IF v = ExcCode THEN FALSE
-  ELSE IF ~NarrowDemanded(r, x) THEN TRUE
-  ELSE IF NarrowExpectNone(r, x) THEN v = NoneCode
-  ELSE /\ Bounded(v)
-       /\ CASE r.f = "truncation_check" -> v = x
-            [] r.f = "from_int" -> v = x
-            [] r.f \in {"ceil_div", "ceil_div_signed"} -> Abs(v) <= Abs(r.a) /\ IsCeil(r.a, x, v)
-            [] r.f = "div" -> Abs(v) <= Abs(r.a) /\ IsTrunc(r.a, x, v)
-            [] r.f = "mod" -> v = r.a % x
-            [] r.f = "clamp" -> IsClamp(r.a, r.b, x, v)
-            [] r.f = "diff" -> v = Diff(r.a, x) \/ (~Signed(r.S) /\ Small(r.S) /\ v = DiffModular(ModTab[r.S], r.a, x))
-            [] r.f = "is_power_of_2" -> v = B01(IsPow2(x))
-            [] r.f = "next_power_of_2" -> IsNextPow2(x, v)
-            [] r.f = "log2" -> IsLog2(x, v)
-            [] r.f \in {"power_of_2", "shifted_mask"} -> v = Pow2(x)
-            [] r.f = "bit_test" -> v = B01(BitTest(r.a, x))
-            [] r.f = "interval_distance" -> v \in IntervalAccepted(r.a, r.b, r.c, x)
-            [] OTHER -> FALSE
+(* the shape of every clause: no exception; if a result is demanded it is "nothing" exactly when
+   the specification says so, else a value satisfying valueOk (arguments are evaluated lazily) *)
+Chk(v, demanded, expectNone, valueOk) ==
+  /\ v # ExcCode
+  /\ (demanded => IF expectNone THEN v = NoneCode ELSE Bounded(v) /\ valueOk)
+SmallOperands(p, q) == Abs(p) <= 4096 /\ Abs(q) <= 4096    \* products stay far below 2^31
+
+OkTruncationCheck(r, x, v) == Chk(v, TRUE, ~Rep(r.D, x), v = x)
+OkFromInt(r, x, v) == Chk(v, TRUE, x >= r.n, v = x)
+OkCeilDiv(r, x, v) == Chk(v, TRUE, x = 0,
+                          IF SmallOperands(r.a, x) THEN Abs(v) <= Abs(r.a) /\ IsCeil(r.a, x, v) ELSE v = CeilQ(r.a, x))
+OkCeilDivSigned(r, x, v) == Chk(v, x = 0 \/ Rep(r.S, CeilQ(r.a, x)), x = 0,
+                                IF SmallOperands(r.a, x) THEN Abs(v) <= Abs(r.a) /\ IsCeil(r.a, x, v) ELSE v = CeilQ(r.a, x))
+OkDiv(r, x, v) == Chk(v, x = 0 \/ Rep(r.D, TruncQ(r.a, x)), x = 0,
+                      IF SmallOperands(r.a, x) THEN Abs(v) <= Abs(r.a) /\ IsTrunc(r.a, x, v) ELSE v = TruncQ(r.a, x))
+OkMod(r, x, v) == Chk(v, TRUE, x = 0, v = r.a % x)
+OkClamp(r, x, v) == Chk(v, TRUE, r.b > x, IsClamp(r.a, r.b, x, v))
+OkDiff(r, x, v) == Chk(v, Rep(r.S, Diff(r.a, x)), FALSE,
+                       v = Diff(r.a, x) \/ (~Signed(r.S) /\ Small(r.S) /\ v = DiffModular(ModTab[r.S], r.a, x)))
+OkIsPow2(r, x, v) == Chk(v, TRUE, FALSE, v = B01(IsPow2(x)))
+OkNextPow2(r, x, v) == Chk(v, Rep(r.S, NextPow2(x)), FALSE, IsNextPow2(x, v))
+OkLog2(r, x, v) == Chk(v, x # 0, FALSE, IsLog2(x, v))
+OkPow2(r, x, v) == Chk(v, x <= MaxExp /\ Rep(r.S, Pow2(x)), FALSE, v = Pow2(x))
+OkBitTest(r, x, v) == Chk(v, TRUE, FALSE, v = B01(BitTest(r.a, x)))
+OkInterval(r, x, v) == Chk(v, r.a <= r.b /\ r.c <= x, FALSE, v \in IntervalAccepted(r.a, r.b, r.c, x))
+
+(* indices of the results of a row that the specification does not explain (dispatch once per row) *)
+NarrowBad(r) ==
+  LET I == 1..Len(r.rs) IN
+  CASE r.f = "truncation_check" -> {i \in I : ~OkTruncationCheck(r, X(r, i), r.rs[i])}
+    [] r.f = "from_int" -> {i \in I : ~OkFromInt(r, X(r, i), r.rs[i])}
+    [] r.f = "ceil_div" -> {i \in I : ~OkCeilDiv(r, X(r, i), r.rs[i])}
+    [] r.f = "ceil_div_signed" -> {i \in I : ~OkCeilDivSigned(r, X(r, i), r.rs[i])}
+    [] r.f = "div" -> {i \in I : ~OkDiv(r, X(r, i), r.rs[i])}
+    [] r.f = "mod" -> {i \in I : ~OkMod(r, X(r, i), r.rs[i])}
+    [] r.f = "clamp" -> {i \in I : ~OkClamp(r, X(r, i), r.rs[i])}
+    [] r.f = "diff" -> {i \in I : ~OkDiff(r, X(r, i), r.rs[i])}
+    [] r.f = "is_power_of_2" -> {i \in I : ~OkIsPow2(r, X(r, i), r.rs[i])}
+    [] r.f = "next_power_of_2" -> {i \in I : ~OkNextPow2(r, X(r, i), r.rs[i])}
+    [] r.f = "log2" -> {i \in I : ~OkLog2(r, X(r, i), r.rs[i])}
+    [] r.f \in {"power_of_2", "shifted_mask"} -> {i \in I : ~OkPow2(r, X(r, i), r.rs[i])}
+    [] r.f = "bit_test" -> {i \in I : ~OkBitTest(r, X(r, i), r.rs[i])}
+    [] r.f = "interval_distance" -> {i \in I : ~OkInterval(r, X(r, i), r.rs[i])}
 
 (* where the rejected input lies; part of the signature, so that one finding cannot hide another *)
 NarrowRegion(r, x) ==
@@ -91,7 +104,6 @@ NarrowClass(r, x, v) ==
    ELSE IF NarrowExpectNone(r, x) THEN "unexpected-value"
    ELSE "wrong-value") \o NarrowRegion(r, x)
 
-NarrowBad(r) == {i \in 1..Len(r.rs) : ~NarrowOk(r, X(r, i), r.rs[i])}
 NarrowKnown(r) == r.f \in {"truncation_check", "from_int", "ceil_div", "ceil_div_signed", "div", "mod", "clamp", "diff",
                            "is_power_of_2", "next_power_of_2", "log2", "power_of_2", "shifted_mask", "bit_test",
                            "interval_distance"}
@@ -99,12 +111,12 @@ NarrowReasons(r) ==
   IF ~NarrowKnown(r) THEN {"unknown-function"}
   ELSE {NarrowClass(r, X(r, i), r.rs[i]) : i \in NarrowBad(r)}
 NarrowAt(r) ==
-  LET bad == NarrowBad(r) IN
-  IF bad = {} THEN <<>>
-  ELSE LET i == CHOOSE j \in bad : \A k \in bad : j <= k IN <<X(r, i), r.rs[i], Cardinality(bad)>>
+  LET bd == NarrowBad(r) IN
+  IF bd = {} THEN <<>>
+  ELSE LET i == CHOOSE j \in bd : \A k \in bd : j <= k IN <<X(r, i), r.rs[i], Cardinality(bd)>>
 
 \* ------------------------------------------------------------------ wide records
-IsMinOverMinusOne(T, x, y) == Signed(T) /\ x = MinZ(T) /\ y = NegZ(One)
+IsMinOverMinusOne(ty, x, y) == Signed(ty) /\ x = MinZ(ty) /\ y = NegZ(One)
 WideDemanded(r) ==
   CASE r.f \in {"ceil_div_signed", "div"} -> r.b.s = 0 \/ ~IsMinOverMinusOne(r.S, r.a, r.b)
     [] r.f = "diff" -> RepZ(r.S, WDiff(r.a, r.b))
